@@ -7,11 +7,12 @@ import z3
 from sx import core as S, env as E, npshim
 
 PROPERTY = "C19"
-REGIONS = ["points-of-library-array-class", "bulk-group", "no-rows", "points-dtype-unsigned", "points-dtype-signed-narrow", "edited-in-place-between-calls", "ndim1", "ndim2", "ndim3", "symbolic-matrix", "concrete-matrix", "satisfied-true", "satisfied-false"]
+REGIONS = ["row-sums-above-2^53", "points-of-library-array-class", "bulk-group", "no-rows", "points-dtype-unsigned", "points-dtype-signed-narrow", "edited-in-place-between-calls", "ndim1", "ndim2", "ndim3", "symbolic-matrix", "concrete-matrix", "satisfied-true", "satisfied-false"]
 BOUNDS = ("rows<=3, columns<=3, points per group<=3, groups<=2; fully symbolic matrix entries, right-hand sides and coordinates with |.|<=20 "
           "for shapes up to 2x2 with <=2 points (products are symbolic x symbolic: QF_NIA, but oracle and code share the same product terms); "
-          "larger shapes use concrete matrices over {-2..2} with symbolic b and symbolic points")
-OUTSIDE = "larger shapes; values beyond +-20 for the fully symbolic family; int64 overflow"
+          "larger shapes use concrete matrices over {-2..2} with symbolic b and symbolic points; wide family: concrete coefficients around 2^26, "
+          "symbolic points |.|<=2^26 and right-hand sides |.|<=2^62 (all row sums inside int64)")
+OUTSIDE = "larger shapes; values beyond +-20 for the fully symbolic family; values beyond the wide family's ranges; int64 overflow"
 FAMILY = "shapes x {symbolic matrix, concrete matrix} x points.ndim in {1,2,3} x {ineqs_satisfied, separable, ineq_separate_points}"
 ASSUMPTIONS = ["M1 numpy object-dtype shim (numpy.matmul/dot on object arrays are real numpy)", "M3"]
 FUNS = ["ineqs_satisfied", "separable", "ineq_separate_points"]
@@ -67,6 +68,13 @@ def instantiations(tier, seed):
     for k, n_ in enumerate([2049] if tier == "quick" else [1023, 1025, 2047, 2049, 2500, 4097, 8193]):
         for fn in FUNS:
             out.append({"rows": 2, "cols": 2, "ndim": 2 + (k + FUNS.index(fn)) % 2, "npts": n_, "ngroups": 1, "fn": fn, "A": [[1, 1], [-1, -2]], "bulk": True})
+    # wide values: concrete coefficients around 2^26, symbolic points up to 2^26 and right-hand sides up to 2^62, so that row sums exceed 2^53
+    # (every value and every row sum stays inside int64; double precision is exact only below 2^53). The symbolic run is the same linear
+    # one; the real int64 runs are biased to rows that hold or fail by exactly one at an odd right-hand side above 2^53
+    for k, A in enumerate([[[2 ** 26 + 1, 2 ** 26 + 3]], [[2 ** 26 + 1, 1], [-(2 ** 26) - 5, -(2 ** 26) - 1]], [[2 ** 26 + 1, 2 ** 26 - 1, 3]]]):
+        for fn in FUNS:
+            nd = 1 + (k + FUNS.index(fn)) % 3
+            out.append({"rows": len(A), "cols": len(A[0]), "ndim": nd, "npts": 1 if nd == 1 else 2, "ngroups": 2 if nd == 3 else 1, "fn": fn, "A": A, "wide": True})
     for mu in ("all_as_any", "ge_as_gt"):
         out.append({"kind": "mutant", "mutant": mu, "rows": 2, "cols": 2, "ndim": 2, "npts": 2, "ngroups": 1, "fn": "ineqs_satisfied", "A": None})
     return out
@@ -83,8 +91,10 @@ def run_inst(spec, run):
                 A = [[ctx.int("a%d%d" % (i, j), -20, 20) for j in range(c)] for i in range(r)]
             else:
                 A = [[S.K(v) for v in row] for row in spec["A"]]
-            b = [ctx.int("b%d" % i, -20, 20) for i in range(r)]
+            b = [ctx.int("b%d" % i, -20, 20) if not spec.get("wide") else ctx.int("b%d" % i, -2 ** 62, 2 ** 62) for i in range(r)]
             plo, phi = (0, 20) if str(spec.get("pdtype", "")).startswith("u") else (-20, 20)
+            if spec.get("wide"):
+                plo, phi = -2 ** 26, 2 ** 26
             if spec.get("bulk"):
                 # a large group: many copies of one symbolic point followed by two other symbolic points (only the tail can differ)
                 base = [[ctx.int("p0_%d_%d" % (k, j), plo, phi) for j in range(c)] for k in range(3)]
@@ -197,6 +207,12 @@ def run_inst(spec, run):
             ext = None
             if spec.get("pdtype"):
                 ext = z3.Or([z3.Or(b[i].e > 0, b[i].e < 0) for i in range(r)])      # rows with a non-zero right-hand side
+            if spec.get("wide"):
+                run.region("row-sums-above-2^53")
+                lhs = lambda i, p: sum((A[i][j].e * p[j].e for j in range(c)), z3.IntVal(0))     # noqa
+                allp = [p for grp in pts for p in grp]
+                ext = z3.Or([z3.And(z3.Or(lhs(i, p) == b[i].e - 1, lhs(i, p) == b[i].e), z3.Or(b[i].e > 2 ** 53 + 4, b[i].e < -(2 ** 53) - 4), b[i].e % 4 == 1)
+                             for i in range(r) for p in allp])
             run.validate(ctx, conc, lambda m: {"res": np.asarray(res).astype(int).tolist()}, extremes=ext)
             run.sample({"shape": [r, c], "ndim": nd, "fn": spec["fn"], "A": spec["A"] or "symbolic", "path_condition": [str(z3.simplify(x)) for x in ctx.pc][:4]})
 
